@@ -1,5 +1,6 @@
 import Bmc.Proofs.C15
 import Bmc.Proofs.C15Float
+import Bmc.Proofs.C15Source
 #print axioms Bmc.Proofs.C15.convert_exact
 #print axioms Bmc.Proofs.C15.printed_value
 #print axioms Bmc.Proofs.C15.printed_canonical
@@ -22,3 +23,7 @@ import Bmc.Proofs.C15Float
 #print axioms Bmc.Proofs.C15.sqrt64_is_correctly_rounded
 #print axioms Bmc.Proofs.C15.driver_prints_convertFloat
 #print axioms Bmc.Proofs.C15.convert_exact_rounding
+#print axioms Bmc.Proofs.C15.lineariser_table_source
+#print axioms Bmc.Proofs.C15.parser_table_source
+#print axioms Bmc.Proofs.C15.sensor_reader_source
+#print axioms Bmc.Proofs.C15.lineariser_table_keys
